@@ -114,8 +114,7 @@ func Priv(kind, label string) crypto.Signer {
 	case KindEC3:
 		return EC(384, label)
 	case KindRSA:
-		h := sha256.Sum256([]byte(label))
-		return RSA(2048, int(h[0]))
+		return RSA(2048, rsaIndex(label))
 	default:
 		return Ed(label)
 	}
@@ -183,4 +182,34 @@ func (zeroReader) Read(p []byte) (int, error) {
 		p[i] = 0
 	}
 	return len(p), nil
+}
+
+// RSA keys cannot be derived from a label; labels are mapped to pool indices in
+// order of first use. The order of first use is a function of the plan, so a
+// replay sees the same assignment. ResetRSA starts a new assignment (call it at
+// the start of every execution).
+var (
+	rsaMu    sync.Mutex
+	rsaAlloc = map[string]int{}
+)
+
+// ResetRSA forgets the label -> pool index assignment.
+func ResetRSA() {
+	rsaMu.Lock()
+	rsaAlloc = map[string]int{}
+	rsaMu.Unlock()
+}
+
+// RSAPoolSize is the number of pooled 2048-bit keys.
+func RSAPoolSize() int { poolOnce.Do(loadPool); return len(pool[2048]) }
+
+func rsaIndex(label string) int {
+	rsaMu.Lock()
+	defer rsaMu.Unlock()
+	if i, ok := rsaAlloc[label]; ok {
+		return i
+	}
+	i := len(rsaAlloc)
+	rsaAlloc[label] = i
+	return i
 }
